@@ -53,6 +53,9 @@ FromSetsOnly == (complete /\ Rule = "id") => AtA = Choice(a, ap, b, bp)
 NoDowngrade == complete => /\ (AtA = Plain) = (ap /\ bp)
                            /\ (AtA = Fail) = (~(ap /\ bp) /\ CommonSet(a, b) = {})
 
+\* an end takes unsealed messages only if both flags were set (follows from NoDowngrade; stated for the trace rule)
+UnsealedOnlyIfBoth == complete => (TakesUnsealed(AtA # Fail, AtA) => (ap /\ bp)) /\ (TakesUnsealed(AtB # Fail, AtB) => (ap /\ bp))
+
 \* Choice is well defined on sets: reordering either list does not change it (checked against a canonical order)
 RECURSIVE SortById(_)
 SortById(S) == IF S = {} THEN <<>> ELSE LET m == CHOOSE x \in S : \A y \in S : x[1] <= y[1] IN <<m>> \o SortById(S \ {m})
